@@ -95,6 +95,18 @@ class Pairwise:
 
 
 class Zeta0(Pairwise):
+    def extra_env(self):
+        base = super().extra_env()
+
+        def f(r):
+            env = base(r) if base else {}
+            for p in range(X.NPTS):
+                for c in X.XYZ:
+                    env[f"split{p}{c}"] = r.uniform(-1, 1)
+            return env
+
+        return f
+
     def build(self):
         S = X.Setup(1, self.gga)
         e1, v1, s1, _ = X.call_get_xc(S, self.f, "mock_xc", xc_params=self.params(S))
@@ -119,6 +131,23 @@ class Zeta0(Pairwise):
             pairs.append((f"vxc_dw p{p}", v2[1, p], v1[0, p]))
             if self.gga:
                 pairs.append((f"vsigma p{p}", (s2[0, p] + s2[1, p] + s2[2, p]) * Fraction(1, 4), s1[0, p]))
+        if self.gga and "_c_" in self.f:
+            # correlation depends on the gradients through |grad n_up + grad n_dw| only: at zeta = 0 it reduces to the unpolarised form for ANY split of
+            # the total gradient between the two channels (non-parallel spin gradients, as in every open-shell system)
+            S3 = X.Setup.__new__(X.Setup)
+            S3.__dict__.update(S2.__dict__)
+            S3.dn = np.empty((2, S.npts, 3), dtype=object)
+            for p in range(S.npts):
+                for c in range(3):
+                    d = S.C.var(f"split{p}{X.XYZ[c]}", pt=p)
+                    S3.dn[0, p, c] = d
+                    S3.dn[1, p, c] = S.dn[0, p, c] - d
+            e3, v3, s3, _ = X.call_get_xc(S3, self.f, "mock_xc", xc_params=self.params(S))
+            for p in range(S.npts):
+                pairs.append((f"independent spin gradients: exc p{p}", e3[p], e1[p]))
+                pairs.append((f"independent spin gradients: vxc_up p{p}", v3[0, p], v1[0, p]))
+                pairs.append((f"independent spin gradients: vxc_dw p{p}", v3[1, p], v1[0, p]))
+                pairs.append((f"independent spin gradients: vsigma p{p}", (s3[0, p] + s3[1, p] + s3[2, p]) * Fraction(1, 4), s1[0, p]))
         return S, pairs
 
     def replay(self, wit):
@@ -126,6 +155,9 @@ class Zeta0(Pairwise):
         n, _, g, par = self._native_inputs(wit)
         dn1 = g[:1] if self.gga else None
         dn2 = np.stack([g[0] / 2, g[0] / 2]) if self.gga else None
+        if self.gga and "independent spin gradients" in str(wit.get("label", "")):
+            sp = np.array([[wit["env"].get(f"split{p}{c}", 0.0) for c in "xyz"] for p in range(len(n))])
+            dn2 = np.stack([sp, g[0] - sp])
         e1, v1, s1, _ = get_xc([self.f, "mock_xc"], n[None, :], 1, dn_spin=dn1, xc_params=par)
         e2, v2, s2, _ = get_xc([self.f, "mock_xc"], np.stack([n / 2, n / 2]), 2, dn_spin=dn2, xc_params=par)
         errs = dict(exc=float(np.max(np.abs(e1 - e2) / np.abs(e1))),
@@ -502,7 +534,7 @@ class ClosedShellSmeared:
     """BOUNDED native: one complete SCF step (eminus.minimizer.scf_step: fields, eigenvalues, Fermi level, smeared fillings, entropy term, energies) for a
     closed-shell state with Fermi smearing and extra bands, through the spin-paired path and through the spin-polarised path with identical orbitals in both
     channels, two and three k-points with unequal weights: same Fermi level, polarised fillings = half the paired ones, every energy contribution (entropy term
-    included) equal; after a second step as well."""
+    included) equal, the gradient per channel (non-constant fillings: the subspace-rotation term is active) half the paired one; after a second step as well."""
 
     def case(self, seed, kset):
         import dataclasses
@@ -530,15 +562,25 @@ class ClosedShellSmeared:
             else:
                 scf.W = [np.concatenate([w, w], axis=0) for w in W1]
             rec = []
+            from eminus.dft import get_grad
+
             for step in (0, 1):
                 scf_step(scf, step)
                 e = {f.name: float(getattr(scf.energies, f.name)) for f in dataclasses.fields(scf.energies)}
-                rec.append((e, np.asarray(scf.atoms.occ.f).copy()))
+                # the gradient with the smeared (non-constant) fillings of this step
+                g = [[np.asarray(get_grad(scf, ik, sp, scf.W, **scf._precomputed)) for sp in range(at.occ.Nspin)] for ik in range(at.kpts.Nk)]
+                rec.append((e, np.asarray(scf.atoms.occ.f).copy(), g))
             out[unres] = rec
         diffs = {}
         for step in (0, 1):
-            e1, f1 = out[False][step]
-            e2, f2 = out[True][step]
+            e1, f1, g1 = out[False][step]
+            e2, f2, g2 = out[True][step]
+            dg = 0.0
+            for ik in range(len(g1)):
+                ref = g1[ik][0]
+                for sp in range(2):
+                    dg = max(dg, float(np.abs(g2[ik][sp] - 0.5 * ref).max() / max(1e-12, np.abs(ref).max())))
+            diffs[f"step {step}: polarised gradient - paired gradient / 2 (relative)"] = dg
             for k in e1:
                 diffs[f"step {step}: {k}"] = abs(e1[k] - e2[k])
             diffs[f"step {step}: polarised fillings - paired fillings / 2"] = float(max(np.abs(f2[:, 0] - f1[:, 0] / 2).max(), np.abs(f2[:, 1] - f1[:, 0] / 2).max())) if f2.shape[-1] == f1.shape[-1] else float("inf")
